@@ -70,8 +70,15 @@ private:
         }
         if (m_matrix_operator.cols() < m_initial_search_space_size + m_correction_size)
         {
-            m_initial_search_space_size = m_matrix_operator.cols() / 3;
-            m_correction_size = m_matrix_operator.cols() / 3;
+            // The initial space must deliver at least nev Ritz pairs, at least one
+            // correction vector is added per iteration, and both must fit into the matrix
+            m_initial_search_space_size = (std::max)(m_number_eigenvalues, m_matrix_operator.cols() / 3);
+            m_correction_size = (std::max)(Index(1), (std::min)(m_matrix_operator.cols() / 3, m_matrix_operator.cols() - m_initial_search_space_size));
+        }
+        // A restart shrinks the search space to its initial size
+        if (m_max_search_space_size < m_initial_search_space_size)
+        {
+            m_max_search_space_size = m_initial_search_space_size;
         }
     }
 
